@@ -11,3 +11,42 @@ NOT_CARRIED = ["injectivity of the complete serializer (unique decodability of t
                "(a mapping key is rendered exactly like the same value)",
                "the YAML loader; get_play_revocation_list (loads and verifies the shipped list) is an assumed contract",
                "a play is modelled two levels deep (top-level mapping of nodes; a node may be a mapping of nodes)"]
+
+
+def static_checks(repo):
+    """the character escape table of PlaybookSerializer._str, re-read from the source: escaping is a character-wise code; it is uniquely
+    decodable (hence injective before quoting) when the backslash itself is escaped, every escape starts with a backslash and is at least
+    two characters long, and no escape is a prefix of another (prefix code).  Necessary and sufficient for the loop as written."""
+    import ast
+    mod = repo.module(SM)
+    fn, _ = mod.find("PlaybookSerializer._str")
+    table = None
+    for n in ast.walk(fn):
+        if isinstance(n, ast.Assign) and any(isinstance(t, ast.Name) and t.id == "special_chars" for t in n.targets):
+            table = ast.literal_eval(n.value)
+    name = "%s::PlaybookSerializer._str/static:escape-table-prefix-code" % SM
+    if not isinstance(table, dict):
+        return [dict(name=name, ok=False, clause="special_chars is a literal mapping", detail="not found / not a literal")]
+    vals = list(table.values())
+    problems = []
+    if "\\" not in table:
+        problems.append("the backslash is not escaped")
+    problems += ["key %r is not one character" % k for k in table if len(k) != 1]
+    problems += ["escape %r of %r does not start with a backslash or is shorter than 2" % (v, k) for k, v in table.items()
+                 if not (v.startswith("\\") and len(v) >= 2)]
+    items = list(table.items())
+    for i, (k1, v1) in enumerate(items):
+        for k2, v2 in items[i + 1:]:
+            if v1.startswith(v2) or v2.startswith(v1):
+                problems.append("escapes of %r and %r collide or one is a prefix of the other: %r / %r" % (k1, k2, v1, v2))
+    witness = None
+    for i, (k1, v1) in enumerate(items):
+        for k2, v2 in items[i + 1:]:
+            if v1 == v2:
+                witness = (k1, k2)
+    cmd = None
+    if witness:
+        cmd = ("import sys; from insights.client.apps.ansible.playbook_verifier.serializer import PlaybookSerializer as P; a, b = %r, %r; "
+               "print(repr(a), repr(b), '->', P._str(a), P._str(b)); sys.exit(1 if P._str(a) == P._str(b) else 0)" % witness)
+    return [dict(name=name, ok=not problems, clause="the escape table is a prefix code with the backslash escaped",
+                 detail="table re-read from source: %r; problems: %r" % (table, problems), native_cmd=cmd)]
